@@ -25,7 +25,7 @@ ANCHORS = ["goose/mm.py:tune_inv_mm_diag", "goose/mm.py:tune_inv_mm_full", "goos
            "goose/hmc.py:HMCKernel._tune_slow", "goose/engine.py:Engine._tune_kernels"]
 ASSUMPTIONS = ["blackjax flattens the kernel's position with ravel_pytree (trusted); the regulariser is the documented +1e-3"]
 WORKERS = 16
-TIMEOUT = {"quick": 1200, "thorough": 3600}
+TIMEOUT = {"quick": 1500, "thorough": 10800}
 
 # mixed-case names: the pytree (hence flat) order of dict keys is the plain string order, "Zeta" < "alpha"
 SHAPES = {"alpha": (), "zeta": (2,), "beta": (3,), "mat": (2, 2), "gamma": (), "Zeta": (), "Sigma": (2,)}
